@@ -101,9 +101,75 @@ theorem evalFilt_ofDNF (t : α → Bool) (d : DNF α) : evalFilt t (Filt.ofDNF d
 theorem ofDNF_truthy (d : DNF α) : (Filt.ofDNF d).truthy = !d.isEmpty := by
   cases d <;> simp [Filt.ofDNF, Filt.truthy]
 
+/-! #### frozenset equality of normalised values -/
+
+theorem conjSubset_all [DecidableEq α] (t : α → Bool) (c1 c2 : List α) (h : conjSubset c1 c2 = true)
+    (h2 : c2.all t = true) : c1.all t = true := by
+  simp only [conjSubset, List.all_eq_true, List.contains_iff_mem] at h h2 ⊢
+  intro a ha
+  exact h2 a (by simpa using h a ha)
+
+theorem conjSetEq_all [DecidableEq α] (t : α → Bool) (c1 c2 : List α) (h : conjSetEq c1 c2 = true) :
+    c1.all t = c2.all t := by
+  simp only [conjSetEq, Bool.and_eq_true] at h
+  rw [Bool.eq_iff_iff]
+  exact ⟨conjSubset_all t c2 c1 h.2, conjSubset_all t c1 c2 h.1⟩
+
+theorem dnfSubset_eval [DecidableEq α] (t : α → Bool) (d1 d2 : DNF α) (h : dnfSubset d1 d2 = true)
+    (h1 : evalDNF t d1 = true) : evalDNF t d2 = true := by
+  simp only [dnfSubset, List.all_eq_true, List.any_eq_true] at h
+  simp only [evalDNF, List.any_eq_true] at h1 ⊢
+  obtain ⟨c, hc, hct⟩ := h1
+  obtain ⟨c', hc', heq⟩ := h c hc
+  exact ⟨c', hc', by rw [← conjSetEq_all t c c' heq]; exact hct⟩
+
+theorem dnfSetEq_eval [DecidableEq α] (t : α → Bool) (d1 d2 : DNF α) (h : dnfSetEq d1 d2 = true) :
+    evalDNF t d1 = evalDNF t d2 := by
+  simp only [dnfSetEq, Bool.and_eq_true] at h
+  rw [Bool.eq_iff_iff]
+  exact ⟨dnfSubset_eval t d1 d2 h.1, dnfSubset_eval t d2 d1 h.2⟩
+
+theorem evalAll_pairSet [DecidableEq α] (t : α → Bool) (l r : DNF α) :
+    evalFiltAll t (pairSet l r) = (evalDNF t l && evalDNF t r) := by
+  unfold pairSet
+  cases h : dnfSetEq l r with
+  | true => simp [evalFiltAll, evalFilt_ofDNF, ← dnfSetEq_eval t l r h]
+  | false => simp [evalFiltAll, evalFilt_ofDNF]
+
+theorem evalAny_pairSet [DecidableEq α] (t : α → Bool) (l r : DNF α) :
+    evalFiltAny t (pairSet l r) = (evalDNF t l || evalDNF t r) := by
+  unfold pairSet
+  cases h : dnfSetEq l r with
+  | true => simp [evalFiltAny, evalFilt_ofDNF, ← dnfSetEq_eval t l r h]
+  | false => simp [evalFiltAny, evalFilt_ofDNF]
+
+theorem pairSet_ne_nil [DecidableEq α] (l r : DNF α) : (pairSet l r).isEmpty = false := by
+  unfold pairSet; cases dnfSetEq l r <;> rfl
+
+/-- a product / union of non-empty normalised factors is non-empty -/
+theorem normalize_and_pairSet_ne_nil [DecidableEq α] (l r : DNF α) (hl : l ≠ []) (hr : r ≠ []) :
+    dnfNormalize (.andS (pairSet l r)) ≠ [] := by
+  unfold pairSet
+  cases l with
+  | nil => exact absurd rfl hl
+  | cons cl _ =>
+    cases r with
+    | nil => exact absurd rfl hr
+    | cons cr _ =>
+      cases dnfSetEq (cl :: _) (cr :: _) <;>
+        simp [dnfNormalize, dnfNormalizeList, dnfNormalize_ofDNF, dnfProduct]
+
+theorem normalize_or_pairSet_ne_nil [DecidableEq α] (l r : DNF α) (hl : l ≠ []) :
+    dnfNormalize (.orS (pairSet l r)) ≠ [] := by
+  unfold pairSet
+  cases l with
+  | nil => exact absurd rfl hl
+  | cons cl _ =>
+    cases dnfSetEq (cl :: _) r <;> simp [dnfNormalize, dnfNormalizeList, dnfNormalize_ofDNF]
+
 /-! #### combine -/
 
-theorem eval_dnfCombine (t : α → Bool) (a b : Option (DNF α))
+theorem eval_dnfCombine [DecidableEq α] (t : α → Bool) (a b : Option (DNF α))
     (ha : ∀ d, a = some d → d ≠ []) (hb : ∀ d, b = some d → d ≠ []) :
     evalODNF t (dnfCombine a b) = (evalODNF t a && evalODNF t b) := by
   cases a with
@@ -127,9 +193,9 @@ theorem eval_dnfCombine (t : α → Bool) (a b : Option (DNF α))
         simp only [dnfCombine, dnfNormalizeTop, ofDNF_truthy, List.isEmpty_cons, Bool.not_false,
           if_true, evalODNF, dnfNormalize_ofDNF, Bool.and_true]
       | some b =>
-        simp only [dnfCombine, dnfNormalizeTop, Filt.truthy, List.isEmpty_cons, Bool.not_false, if_true, evalODNF]
+        simp only [dnfCombine, dnfNormalizeTop, Filt.truthy, pairSet_ne_nil, Bool.not_false, if_true, evalODNF]
         rw [eval_dnfNormalize]
-        simp [evalFilt, evalFiltAll, evalFilt_ofDNF]
+        simp only [evalFilt, evalAll_pairSet]
 
 /-! #### extract_pq_filters -/
 
@@ -164,20 +230,13 @@ theorem extractPq_sound : ∀ (p : T Atom) (d : DNF Atom), extractPq p = some d 
         have hle : dl.isEmpty = false := by cases dl <;> simp_all
         have hre : dr.isEmpty = false := by cases dr <;> simp_all
         simp only [hle, hre, Bool.not_false, Bool.and_self, if_true, dnfNormalizeTop, Filt.truthy,
-          List.isEmpty_cons, Option.some.injEq] at h
+          pairSet_ne_nil, Option.some.injEq] at h
         subst h
-        have ev : ∀ t : Atom → Bool, evalDNF t (dnfNormalize (.andS [Filt.ofDNF dl, Filt.ofDNF dr])) = eval2 t (.and l r) := by
+        have ev : ∀ t : Atom → Bool, evalDNF t (dnfNormalize (.andS (pairSet dl dr))) = eval2 t (.and l r) := by
           intro t
           rw [eval_dnfNormalize]
-          simp [evalFilt, evalFiltAll, evalFilt_ofDNF, el, er, eval2]
-        refine ⟨?_, by simp [T.negFree, fl, fr], ev⟩
-        -- non-empty: a product of non-empty factors
-        cases dl with
-        | nil => exact absurd rfl nl
-        | cons cl _ =>
-          cases dr with
-          | nil => exact absurd rfl nr
-          | cons cr _ => simp [dnfNormalize, dnfNormalizeList, dnfNormalize_ofDNF, dnfProduct]
+          simp only [evalFilt, evalAll_pairSet, el, er, eval2]
+        exact ⟨normalize_and_pairSet_ne_nil dl dr nl nr, by simp [T.negFree, fl, fr], ev⟩
   | or l r ihl ihr =>
     intro d h
     simp only [extractPq] at h
@@ -193,16 +252,13 @@ theorem extractPq_sound : ∀ (p : T Atom) (d : DNF Atom), extractPq p = some d 
         have hle : dl.isEmpty = false := by cases dl <;> simp_all
         have hre : dr.isEmpty = false := by cases dr <;> simp_all
         simp only [hle, hre, Bool.not_false, Bool.and_self, if_true, dnfNormalizeTop, Filt.truthy,
-          List.isEmpty_cons, Option.some.injEq] at h
+          pairSet_ne_nil, Option.some.injEq] at h
         subst h
-        have ev : ∀ t : Atom → Bool, evalDNF t (dnfNormalize (.orS [Filt.ofDNF dl, Filt.ofDNF dr])) = eval2 t (.or l r) := by
+        have ev : ∀ t : Atom → Bool, evalDNF t (dnfNormalize (.orS (pairSet dl dr))) = eval2 t (.or l r) := by
           intro t
           rw [eval_dnfNormalize]
-          simp [evalFilt, evalFiltAny, evalFilt_ofDNF, el, er, eval2]
-        refine ⟨?_, by simp [T.negFree, fl, fr], ev⟩
-        cases dl with
-        | nil => exact absurd rfl nl
-        | cons cl _ => simp [dnfNormalize, dnfNormalizeList, dnfNormalize_ofDNF]
+          simp only [evalFilt, evalAny_pairSet, el, er, eval2]
+        exact ⟨normalize_or_pairSet_ne_nil dl dr nl, by simp [T.negFree, fl, fr], ev⟩
 
 /-! #### Kleene evaluation of negation-free trees is a Boolean homomorphism on "is (non-null) true" -/
 
